@@ -193,6 +193,8 @@ def source_bytes(src):
         return open(os.path.join(SAMPLES, src["name"]), "rb").read()
     if src["kind"] == "decorated":
         return decorated_package(src["base"])
+    if src["kind"] == "variant":
+        return variant_package(src["base"], src["seed"])
     return None
 
 
@@ -284,6 +286,10 @@ def flat_structure_issues(state, flat_bytes):
     for name in ("meta.xml", "settings.xml", "styles.xml", "content.xml"):
         if name in state and state[name].strip():
             _tag_seq(etree.fromstring(state[name]), exp)
+    # the generator stamp is the one change a save may make (it is added when the source had none)
+    gen = "{%s}generator" % METANS
+    got = [t for t in got if t != gen]
+    exp = [t for t in exp if t != gen]
     if got != exp:
         k = next((i for i in range(min(len(got), len(exp))) if got[i] != exp[i]), min(len(got), len(exp)))
         return [("flat-xml:element-structure-differs", {"at": k, "expected": [t.rpartition("}")[2] for t in exp[max(0, k - 2) : k + 3]], "got": [t.rpartition("}")[2] for t in got[max(0, k - 2) : k + 3]], "n_expected": len(exp), "n_got": len(got)})]
@@ -519,6 +525,8 @@ def gen_source(rng, allow_generated=True):
         return {"kind": "template", "name": rng.choice(TEMPLATES)}
     if k < 0.33:
         return {"kind": "decorated", "base": rng.choice(TEMPLATES + ["example.odt", "simple_table.ods", "note.odt"])}
+    if k < 0.41:
+        return {"kind": "variant", "base": rng.choice(TEMPLATES + ["example.odt", "simple_table.ods", "note.odt", "background.odp", "base_shapes.odg"]), "seed": rng.randrange(1000)}
     if k < 0.7 or not allow_generated:
         s = {"kind": "sample", "name": rng.choice(sample_files())}
         if rng.random() < 0.3:
